@@ -1,5 +1,6 @@
 """C15: at most max_idle_per_host idle connections per origin (level: proof; DESIGN.md section 5)."""
 import pool
+import c06
 
 META = {
     "thorough_extra": ["mocks", "client-only"],
@@ -17,4 +18,7 @@ META = {
 RULES = [
     ("P1", pool.P1, ["default"]),
     ("P6", pool.P6, ["default"]),
+    # the bound is per token: one origin must have one token (Eq / Hash of the key agree, the token map answers through entry(key))
+    ("C06.1", c06.C06_1, ["default"]),
+    ("C06.3", c06.C06_3, ["default"]),
 ]
